@@ -26,14 +26,12 @@ strictly increasing; uniform: e0 + k*s).  The code works in box-local coordinate
 
 from __future__ import annotations
 
-import itertools
-
 import z3
 
 from vc import array as A
 from vc import scene
 from vc.array import SymArray
-from vc.core import SymBool, SymNum, ctx, to_z3_real
+from vc.core import SymBool, ctx, to_z3_real
 from vc.harness import Task
 from vc.obl import prove_arrays_equal, prove_pointwise, sym_int, sym_real
 
@@ -81,10 +79,10 @@ ASSUMPTIONS = [
     "boxes are well-formed: 0 <= lo < hi <= N on every axis; radii > 0; spacing / cell widths > 0",
     "the point-in-polygon test itself (matplotlib) is external: only WHICH polygon and WHICH points are handed to it, and what is done with its answer, is verified",
     "np.arange(start, stop, step) has ceil((stop-start)/step) elements over the reals (floating-point rounding of the length is not modelled); used on the unresolved-UniformGrid path of ExtrudedPolygon only",
-    "polygon vertex count fixed to 4 symbolic vertices (the code treats rows uniformly: one broadcast addition)",
+    "polygon vertex count fixed to 4 symbolic vertices in the quick tier, 3/4/6 in the thorough tier (the code treats rows uniformly: one broadcast addition)",
     "grid kinds: 'nonuniform' and 'uniform' are realised RectilinearGrid stand-ins (what place_objects attaches), 'policy' is an unresolved UniformGrid (the legacy fallback branch `resolved_grid is None`)",
 ]
-MIN_OBLIGATIONS = {"quick": 60, "thorough": 100}
+MIN_OBLIGATIONS = {"quick": 300, "thorough": 500}
 LEVEL_TEXT = "Deductive proof for all volume shapes, box positions, radii, spacings / edge arrays (symbolic) that every cell of the mask is set iff its physical centre lies strictly inside the ellipsoid / cylinder, and that the polygon path hands exactly the cell centres (h, v order) and the re-centred vertices to the inside test and extrudes its answer unchanged; finite classes (axis, which per-axis radii are given, grid kind) enumerated exhaustively"
 LEVEL_NOTE = "real arithmetic; matplotlib's inside test uninterpreted; 4-vertex polygons; np.arange length over the reals"
 
@@ -285,13 +283,13 @@ class _StubPath:
         return SymArray((pts.shape[0],), lambda idx: _inside(pts.at_index((idx[0], 0)), pts.at_index((idx[0], 1))), "bool")
 
 
-def _polygon(kind, axis):
+def _polygon(kind, axis, nverts=4):
     def body(c, inp):
         from fdtdx.objects.static_material.polygon import ExtrudedPolygon
 
         _REC.clear()
         cfg, shape, box, edge = _scene(kind, inp)
-        V = A.fresh_array("V", (4, 2))
+        V = A.fresh_array("V", (nverts, 2))
         inp.array("V", V)
         inp.note("axis", axis)
         obj = ExtrudedPolygon(name=f"poly_{kind}_{axis}", materials=_materials(), material_name="core", axis=axis, vertices=V)
@@ -310,7 +308,7 @@ def _polygon(kind, axis):
         o = {a: edge(a, box[a][0]) for a in (h, v)}
         shift = [_box_centre(edge, box, h) - o[h], _box_centre(edge, box, v) - o[v]]
         passed = _REC["vertices"][0]
-        prove_arrays_equal(f"{pre}/call:polygon=vertices_moved_to_box_centre", passed, SymArray((4, 2), lambda idx: V.at_index(idx) + shift[idx[1]], "real"))
+        prove_arrays_equal(f"{pre}/call:polygon=vertices_moved_to_box_centre", passed, SymArray((nverts, 2), lambda idx: V.at_index(idx) + shift[idx[1]], "real"))
         # (b) the handed-over points, un-flattened row-major over (i_h, i_v)
         pts = _REC["points"][0]
         nh, nv = obj.grid_shape[h], obj.grid_shape[v]
@@ -349,25 +347,6 @@ def _np_patch():
 SPHERE_GIVEN = ["", "x", "y", "z", "xy", "xz", "yz", "xyz"]
 
 
-def _prefixed(bodies):
-    """several sub-sessions in one task (amortises process start-up); obligation names prefixed"""
-
-    def body(c, inp):
-        for label, b in bodies:
-            orig = c.prove
-
-            def pr(name, goal, *a, _o=orig, _p=label, **kw):
-                return _o(f"{_p}:{name}", goal, *a, **kw)
-
-            c.prove = pr
-            try:
-                b(c, inp)
-            finally:
-                c.prove = orig
-
-    return body
-
-
 def tasks(tier, seed):
     out = {}
     for kind in GRID_KINDS:
@@ -376,6 +355,9 @@ def tasks(tier, seed):
         for axis in range(3):
             out[f"cylinder/{kind}/axis{axis}"] = Task(_cylinder(kind, axis))
             out[f"polygon/{kind}/axis{axis}"] = Task(_polygon(kind, axis), extra_patch=_np_patch())
+            if tier == "thorough":
+                for nv in (3, 6):
+                    out[f"polygon{nv}/{kind}/axis{axis}"] = Task(_polygon(kind, axis, nv), extra_patch=_np_patch())
     return out
 
 
@@ -493,7 +475,7 @@ def replay(key, obligation, witness):
 
     sc = (witness or {}).get("scalars", {})
     parts = key.split("/")
-    what, kind = parts[0], parts[1]
+    what, kind = parts[0].rstrip("0123456789"), parts[1]
     variant = parts[2]
     if what == "sphere":
         variant = "" if variant == "none" else variant
@@ -514,7 +496,7 @@ def replay(key, obligation, witness):
             else:
                 ext.append(s * (box[a][1] - box[a][0]))
         h, v = [a for a in range(3) if a != int(variant)]
-        if V is None or V.shape != (4, 2) or np.ptp(V[:, 0]) == 0 or np.ptp(V[:, 1]) == 0:
+        if V is None or V.ndim != 2 or V.shape[1] != 2 or V.shape[0] < 3 or np.ptp(V[:, 0]) == 0 or np.ptp(V[:, 1]) == 0:
             V = np.array([[-0.31, -0.43], [0.47, -0.36], [0.23, 0.41], [-0.42, 0.27]]) * np.array([ext[h], ext[v]])
         return V
 
@@ -522,7 +504,7 @@ def replay(key, obligation, witness):
     try:
         N = [max(1, int(sc[f"N{a}"])) for a in "xyz"]
         box = [(int(sc[f"lo{a}"]), int(sc[f"hi{a}"])) for a in range(3)]
-        if all(0 <= lo < hi <= n for (lo, hi), n in zip(box, N)):
+        if all(0 <= lo < hi <= n for (lo, hi), n in zip(box, N)) and N[0] * N[1] * N[2] <= 2_000_000:
             widths = None
             if kind == "nonuniform":
                 widths = []
